@@ -63,6 +63,9 @@ def run(run, model):
     run.do(twins.wrapper_twins, model)
     run.do(twins.helper_dispatch, model)
     run.do(twins.colour, model)
+    from . import effects
+    run.do(twins.body_await, model)
+    run.do(effects.frozen_after_init, model, "C13.no-cached-decision")
     run.do(inv.self_rule, model, "C13.sync-reject-invariant")
     run.do(parity, model)
     from . import c19
@@ -72,3 +75,4 @@ def run(run, model):
     run.minimum("C13.sync-reject", 12)
     run.minimum("C13.colour", 2)
     run.minimum("C13.parity", 20)
+    run.minimum("C13.body-await", 2)
